@@ -3,7 +3,7 @@
 From Coq Require Import String List Bool.
 Import ListNotations.
 
-Inductive mkind := KPlain | KAtomic | KMutex | KCond | KSubobject | KThreads.
+Inductive mkind := KPlain | KContainer | KAtomic | KMutex | KCond | KSubobject | KThreads.
 
 Inductive cop :=
 | Lock (m : string) | Unlock (m : string)
